@@ -34,11 +34,19 @@ class AlwaysGreater:
 
 
 class Infinity(AlwaysGreater, int):
-    pass
+    def __eq__(self, other: object) -> bool:
+        return isinstance(other, Infinity)
+
+    def __hash__(self) -> int:
+        return hash("Infinity")
 
 
 class NegativeInfinity(AlwaysSmaller, int):
-    pass
+    def __eq__(self, other: object) -> bool:
+        return isinstance(other, NegativeInfinity)
+
+    def __hash__(self) -> int:
+        return hash("NegativeInfinity")
 
 
 T = TypeVar("T", bound="PEP440Version")
